@@ -138,6 +138,33 @@ def run(chk):
         except Exception as ex:
             chk.fail("correlations-raise", f"raises {ex!r}", info)
 
+    # ---- (c1) after changing a public parameter of a used object its cells are those of a fresh equal object
+    # (= direct integration of its CURRENT correlation function) -----------------------------------------------------
+    for it in range(10 if thorough else 5):
+        attr = ["alpha", "zeta", "cutoff", "temperature", "cutoff_type"][it % 5]
+        kw = dict(alpha=0.2, zeta=1.0, cutoff=3.0, cutoff_type="exponential", temperature=0.4)
+        new = {"alpha": 0.6, "zeta": 3.0, "cutoff": 1.5, "temperature": 0.0, "cutoff_type": "gaussian"}[attr]
+        dt = rng.choice([0.05, 0.2])
+        info = {"kind": "parameter-change", "attribute": attr, "dt": dt}
+        chk.search_cases += 1
+        chk.count("search_parameter_change")
+        chk.case(info, ("change", attr, dt))
+        try:
+            obj = oqupy.PowerLawSD(**kw)
+            cells = [("upper-triangle", 0.0, None), ("square", dt, None), ("rectangle", 2 * dt, 3 * dt)]
+            before = [complex(obj.correlation_2d_integral(dt, t1, t2, shape=sh)) for sh, t1, t2 in cells]
+            setattr(obj, attr, new)
+            after = [complex(obj.correlation_2d_integral(dt, t1, t2, shape=sh)) for sh, t1, t2 in cells]
+            fresh_obj = oqupy.PowerLawSD(**dict(kw, **{attr: new}))
+            fresh = [complex(fresh_obj.correlation_2d_integral(dt, t1, t2, shape=sh)) for sh, t1, t2 in cells]
+            for (sh, t1, t2), a_, f_, b_ in zip(cells, after, fresh, before):
+                if abs(a_ - f_) > 1e-9 * max(abs(f_), 1e-12):
+                    chk.fail("stale-after-parameter-change", f"PowerLawSD: after setting {attr} = {new!r} the {sh} cell is {a_:.8g}, a fresh object with the same "
+                             f"parameters gives {f_:.8g} (before the change it was {b_:.8g})", dict(info, shape=sh))
+                    break
+        except Exception as ex:
+            chk.fail("correlations-raise", f"raises {ex!r}", info)
+
     n_search = 40 if (thorough or chk.disagreements or chk.broken) else 10
     strata = [(0.05, "upper-triangle", True), (0.0, "upper-triangle", True), (0.5, "upper-triangle", False), (0.05, "square", False),
               (5.0, "rectangle", False), (0.0, "square", True), (0.5, "rectangle", True)]
